@@ -405,9 +405,14 @@ func (un *Unit) execUnOp(fr *Frame, st *State, in *ssa.UnOp) {
 			v = n
 		}
 		if !p.local {
-			un.nextOverride = un.boundOf(st, p.comp)
+			bound := un.boundOf(st, p.comp)
+			un.nextOverride = bound
 			tf := un.typeFacts(st, v, et)
 			un.nextOverride = ""
+			if len(p.keys) >= 1 && un.compKind[p.comp] != "elem" {
+				// see specx.fieldOf: no claim about fields of objects allocated after this version came into being
+				tf = implies("(< "+p.keys[0]+" "+bound+")", tf)
+			}
 			un.assume(st, tf)
 		}
 		out := Val{t: v}
